@@ -37,7 +37,7 @@ def _sparse_stream(ctx: Ctx):
     lits, descr = [], []
     for i in range(ctx.n(400, 6000)):
         r = rng.random()
-        if r < 0.45:
+        if r < 0.35:
             n = rng.randint(0, 8)
             pool = ["x", "y", "z", "w"]
             v = [None if rng.random() < 0.15 else rng.choice(pool) for _ in range(n)]
@@ -59,18 +59,18 @@ def _sparse_stream(ctx: Ctx):
                                                cbool(df), clist(cstr(str(x)) for x in lv),
                                                clist(clist(f"({a}%nat, {qc(b)})" for a, b in col) for col in cols))
             ctx.count("sparse", "dummies")
-        elif r < 0.6:
+        elif r < 0.65:
             # the real PandasMaterializer._get_columns_for_term on synthetic CSC factor columns (one to four factors, single-column factors are
             # pre-multiplied by the implementation), against the model's sparse Kronecker product
             import pandas as pd
             from formulaic import ModelSpec
             from formulaic.materializers import PandasMaterializer
             n = rng.randint(1, 6)
-            nf = rng.randint(1, 4)
+            nf = rng.randint(1, 5)
             scale = float(rng.choice([1, 1, 2, 0.5, -3]))
             factors, flit = [], []
             for fi in range(nf):
-                ncols = rng.choice([1, 1, 2, 3])
+                ncols = rng.choice([1, 1, 1, 2, 3])
                 fac, cl = {}, []
                 for ci in range(ncols):
                     rows = sorted(rng.sample(range(n), rng.randint(0, n)))
